@@ -1014,7 +1014,7 @@ pub(crate) trait StylesheetParser<'a>: BaseParser + Sized {
                 kind: kind @ ('"' | '\''),
                 ..
             }) => kind,
-            Some(..) | None => unreachable!("Expected string."),
+            Some(..) | None => return Err(("Expected string.", self.toks().prev_span()).into()),
         };
 
         let mut buffer = Interpolation::new();
